@@ -36,13 +36,17 @@ LayerNode(layer, p) ==
 FirstWith(layers, p) ==
   LET S == {i \in DOMAIN layers : LayerNode(layers[i], p).k # "none"} IN
   IF S = {} THEN Absent ELSE LayerNode(layers[CHOOSE i \in S : \A j \in S : i <= j], p)
-RECURSIVE MergedAt(_, _)
-MergedAt(layers, p) ==
+\* wo: paths for which the write layer carries a whiteout marker (a write layer that was used before:
+\* C10, deletions persist).  A marker hides what the lower layers hold; an entry of the write layer
+\* itself is newer than its marker and wins.
+RECURSIVE MergedAt(_, _, _)
+MergedAt(layers, wo, p) ==
   IF p = Root THEN Dir
-  ELSE IF MergedAt(layers, Parent(p)).k # "dir" THEN Absent
+  ELSE IF MergedAt(layers, wo, Parent(p)).k # "dir" THEN Absent
+  ELSE IF p \in wo /\ LayerNode(layers[1], p).k = "none" THEN Absent
   ELSE FirstWith(layers, p)
 \* C09: the union the overlay must present
-Merge(layers) == [p \in Universe |-> MergedAt(layers, p)]
+Merge(layers, wo) == [p \in Universe |-> MergedAt(layers, wo, p)]
 
 \* structure / bytes / creation+modification times of a layer (access time handled separately)
 LayerCore(layer) == {[p |-> layer[i].p, k |-> layer[i].k, d |-> layer[i].d, cr |-> layer[i].cr, mo |-> layer[i].mo] : i \in DOMAIN layer}
@@ -198,14 +202,15 @@ TrSegInit ==
   /\ LET e == Rec[l]
          o == e.obs
          w == TreeOfObs(o)
-         isovl == e.kind = "ovl" /\ "layers" \in DOMAIN e
+         isovl == e.kind \in {"ovl", "aovl"} /\ "layers" \in DOMAIN e
+         wo0 == IF "wo" \in DOMAIN e THEN {x \in Range(e.wo) : x \in Universe} ELSE {}
          isalt == e.kind = "alt" /\ "twinobs" \in DOMAIN e
          bad == (IF NoPanicObs(o) THEN {} ELSE {"nopanic"})
                 \cup (IF ObsMatches(o, w) THEN {} ELSE {"initmatch"})
                 \cup (IF WellFormedObs(o) THEN {} ELSE {"wellformed"})
                 \cup (IF ObserversAgree(o) THEN {} ELSE {"observers"})
                 \cup (IF ObsErrPathsOK(o) THEN {} ELSE {"errpath"})
-                \cup (IF isovl /\ ~ObsMatches(o, Merge(e.layers)) THEN {"union"} ELSE {})
+                \cup (IF isovl /\ ~ObsMatches(o, Merge(e.layers, wo0)) THEN {"union"} ELSE {})
                 \cup (IF isalt /\ ObsCore(e.twinobs) # ObsCore(o) THEN {"view"} ELSE {})
                 \* C18: the embedded view equals the observation of a physical filesystem on the same folder
                 \cup (IF "truth" \in DOMAIN e /\ ~ObsMatches(o, TreeOfObs(e.truth)) THEN {"truth"} ELSE {}) IN
@@ -222,7 +227,8 @@ TrSegInit ==
      /\ IF bad = {} THEN TRUE
         ELSE Report("VIOL", [l |-> l, seg |-> seg + 1, secondary |-> FALSE, conjs |-> bad,
                              sig |-> [conj |-> "init", op |-> "init", kind |-> e.kind, cfg |-> e.cfg,
-                                      diff |-> IF isovl THEN DiffPaths(o, Merge(e.layers)) ELSE DiffPaths(o, w)]])
+                                      diff |-> IF isovl THEN DiffPaths(o, Merge(e.layers, wo0)) ELSE DiffPaths(o, w),
+                                      markers |-> wo0 # {}]])
   /\ l' = l + 1
 
 TrCall ==
